@@ -43,7 +43,7 @@ ModelRef(kind, s) ==
   \o [r \in 1..s.i |-> Bary(kind, [j \in 1..NNodes(kind) |-> j])]
 WithLocs(d, mesh) ==
   LET pre == [d EXCEPT !.loc = [mode |-> "exact", L |-> 12, sc |-> 1, ref |-> ModelRef(d.kind, d.sig), p |-> mesh.p,
-                                glob |-> <<>>]]
+                                lf |-> CodeLF(d.kind), le |-> CodeLE(d.kind), glob |-> <<>>]]
   IN [pre EXCEPT !.loc.glob = DofLocsImpl(pre)]
 
 VARIABLES m, c, sig, failed
